@@ -165,11 +165,83 @@ def main(tier, seed, scale=1.0):
         if nontrivial:
             chk.sample({"case": cid, "input": text, "processes": procs, "repeats": repeat,
                         "output_sha": digest(out)}, limit=4)
+    offsets_and_comments(chk, seed)
     chk.extra["processes"] = procs
     chk.extra["repeats_per_process"] = repeat
     if tier == "thorough":
         unpretty_pairs(chk, seed, cases)
     return chk.finish()
+
+
+OFFSET_INPUTS = [
+    "#[derive(Educe)]\n#[educe(Into(u8), Into(u16), Into(String), Into(u64))]\npub struct A {\n    pub a: u8,\n    pub b: u16,\n    pub c: String,\n    pub d: u64,\n}\n",
+    "#[derive(Educe)]\n#[educe(Debug, Clone, PartialEq, Hash)]\npub struct B<T> {\n    #[educe(Debug(method(m)))]\n    pub a: T,\n    pub b: u8,\n}\n",
+    "#[derive(Educe)]\n#[educe(Debug(name = true), PartialEq, Eq, PartialOrd, Ord, Hash, Default)]\npub enum C {\n    #[educe(Default)]\n    V(u8, #[educe(Debug(method(m)))] u16),\n    W {\n        x: u8,\n    },\n    U,\n}\n",
+    "#[derive(Educe)]\n#[educe(Debug(unsafe), PartialEq(unsafe), Eq, Hash(unsafe), Clone, Copy, Default)]\npub union D {\n    #[educe(Default)]\n    pub a: u32,\n    pub b: [u8; 4],\n}\n",
+    "#[derive(Educe)]\n#[educe(Into(u16), Into(u8), Deref, DerefMut)]\npub enum E {\n    V(#[educe(Deref, DerefMut, Into(u8))] u8, #[educe(Into(u16))] u16),\n    W {\n        #[educe(Deref, DerefMut, Into(u8))]\n        x: u8,\n        #[educe(Into(u16))]\n        y: u16,\n    },\n}\n",
+]
+
+
+def offsets_and_comments(chk, seed):
+    """The same tokens at different byte offsets of one file, with different comments and spacing in and around them, have
+    to expand to the same items (through rustc and the real entry point: spans have source text and positions there)."""
+    from .. import unpretty as UP
+    rng = rng_for(seed, PROP, "offsets")
+    copies = 7
+    noise = ["// Educe__DebugField H HH state f builder other source _0 __0 arg", "/* Educe__DebugField_ */", "//", "// x" * 40]
+    parts = ["#![allow(dead_code, unused)]\nuse educe::Educe;\n"
+             "pub fn m<T>(_: &T, f: &mut ::core::fmt::Formatter<'_>) -> ::core::fmt::Result { f.write_str(\"m\") }\n"]
+    for c in range(copies):
+        # padding so that the copies straddle different powers of ten of the byte offset
+        parts.append("".join("// %s\n" % ("p" * rng.randint(0, 90)) for _ in range(rng.choice([0, 1, 3, 9, 25]))))
+        items = []
+        for t in OFFSET_INPUTS:
+            if c % 2 == 1:
+                # comments and blank lines between the tokens of the item (never inside a token)
+                lines = t.split("\n")
+                t = "\n".join(l + ("  " + rng.choice(noise) if l.strip() and rng.random() < 0.5 else "") + ("\n" if rng.random() < 0.2 else "")
+                              for l in lines)
+            items.append(t)
+        head = "pub mod copy_%d {\nuse super::*;\n" % c
+        boundary = {2: 10000, 4: 100000}.get(c)
+        if boundary:
+            # a power of ten of the byte offset falls exactly between two Into targets of one attribute
+            here = len("".join(parts)) + len(head) + items[0].index("Into(u16)") + 5
+            pad = boundary - here
+            while pad >= 3:
+                k = min(pad, 100)
+                if pad - k in (1, 2):
+                    k -= 3
+                parts.append("//" + "p" * (k - 3) + "\n")
+                pad -= k
+        parts.append(head + "".join(items) + "}\n")
+    src = "".join(parts)
+    text = UP.expand("c16u", src)
+    mods = UP.modules(text)
+    import re as _re
+
+    def norm(b):
+        # the pretty-printer re-inserts the comments of the original item: they are not part of the expansion
+        b = _re.sub(r"/\*.*?\*/", "", b, flags=_re.S)
+        b = _re.sub(r"//[^\n]*", "", b)
+        return " ".join(b.split())
+    if "copy_0" not in mods or len([m for m in mods if m.startswith("copy_")]) != copies:
+        chk.inconc("unpretty-output-not-understood")
+        return
+    ref = norm(mods["copy_0"])
+    if ref.count("impl") < 10:
+        chk.inconc("unpretty-output-not-understood")
+        return
+    for c in range(1, copies):
+        chk.evaluations += 1
+        got = norm(mods["copy_%d" % c])
+        if got != ref:
+            chk.violation("nondeterministic|source-position-or-comments", "identical tokens at another byte offset / with other comments expand "
+                          "differently (copy_0 vs copy_%d of the same items in one file)" % c,
+                          {"crate.rs": src, "copy_0.txt": ref, "copy_%d.txt" % c: got})
+            return
+    chk.count("offset-copies-equal", copies - 1)
+    chk.held("offsets:" + digest(src), True, 0)
 
 
 def unpretty_pairs(chk, seed, cases, n=24):
